@@ -12,6 +12,8 @@ R09k  XCDR2 aggregated objects with a DHEADER (appendable / mutable struct and u
       the position inside or at the start of a nested object
 R09l  XCDR1 mutable struct / union: every successful return of the decoder passes a function that stops only at the sentinel
 R09m  XCDR2 member lookup compares member ids without narrowing them below the 28 bits of the EMHEADER
+R09n  the serializer chooses EMHEADER length code 5 (NEXTINT is the member's first word and its byte length) for a sequence only with
+      regard to the element type. KNOWN FINDING on the current tree: chosen for every SEQUENCE member
 R09c  strings: the serializer writes length = len + 1 and a terminating NUL; the deserializer reads length - 1 bytes and one more byte
 R09d  supported kinds: serialize_value / deserialize_value (and the element forms) leave the same TypeKind arms unimplemented
 R09e  EMHEADER length code: the serializer's size -> LC table is the inverse of the deserializer's LC -> size table on 1, 2, 4, 8
@@ -88,6 +90,17 @@ def header_reads(fx, fc, delim=None):
             if t2.callee.indirect or t2.callee.res_id not in delim:
                 continue
             if any(a.place is not None and a.place.local in vals for a in t2.args):
+                mode = "delimits"
+        if mode == "used":
+            # the same done inline: both the read limit and the continuation position are stored from the value
+            from vplib import flow
+            g = flow.dep_graph(m)
+            inline = {"pos": False, "buffer": False}
+            for fld in inline:
+                for b3, i3, s3 in fc.field_writes("Reader", fld):
+                    if any(flow.derives_from(m, u, g) & vals for u in s3.rv.locals_used()):
+                        inline[fld] = True
+            if inline["pos"] and inline["buffer"]:
                 mode = "delimits"
         out.append((bb, t.line, mode))
     return out
@@ -329,6 +342,36 @@ def check_object_extent(fx, rep, rk, rl, rm):
     rep.floor(rm, nid, 2, "XCDR2 member lookup functions")
 
 
+def check_lc5_choice(fx, rep, rule):
+    """LC 5 in an EMHEADER says: the member is 4 + NEXTINT bytes long and NEXTINT is the member's own first word. That holds for members
+    that start with a DHEADER; for a sequence of primitive elements (no DHEADER) the first word is the element count, which is the
+    byte length only for one-byte elements. So a function that chooses LC 5 on `kind == SEQUENCE` has to consult the element type."""
+    n = 0
+    for b in fx.bodies.values():
+        if not b.is_fn_like() or b.item_name != "write_header" or "EMheader1" not in (b.impl_self or "") or SER not in b.sname:
+            continue
+        fc = FnCtx(b)
+        m = fc.mir
+        has5 = any(s.kind == "assign" and s.rv is not None and s.rv.kind == "use" and s.rv.ops and s.rv.ops[0].const is not None and s.rv.ops[0].const.get("v") == 5
+                   for bb, i, s in m.stmts())
+        seq_tests = [t.line for bb, t in m.calls() if not t.callee.indirect and t.callee.method() == "eq"
+                     and any(E.strip_casts(fc.arg(t, i))[0] == "adt" and E.strip_casts(fc.arg(t, i))[2] == "SEQUENCE" for i in range(len(t.args)))]
+        names = {v.get("discr", i): v["name"] for i, v in enumerate(fx.adt("TypeKind")["variants"])}
+        for sb, ce in fc.ces.items():
+            if ce.is_discr() and E.mentions_call(ce.expr[1], "get_kind") and any(names.get(v) == "SEQUENCE" for v, t in ce.arms):
+                seq_tests.append(m.blocks[sb].term.line)
+        if not has5:
+            continue
+        n += 1
+        consults = any(not t.callee.indirect and t.callee.method() == "is_element_type_kind_primitive" for bb, t in m.calls()) or \
+            any(s.kind == "assign" and s.rv is not None and E.mentions_field(fc.rv_expr(s), "element_type") for bb, i, s in m.stmts())
+        adder(rep, b)(rule, "EMHEADER length code 5 is chosen for a sequence only with regard to its element type", not seq_tests or consults,
+                      "LC 5 is chosen for every SEQUENCE member (test at line %s) without looking at the element type: for a sequence of primitive "
+                      "elements wider than one byte NEXTINT is the element count, not the byte length the length code announces" % seq_tests[:2],
+                      seq_tests[0] if seq_tests else None)
+    rep.floor(rule, n, 1, "functions choosing EMHEADER length code 5")
+
+
 def run(ctx, rep):
     fx = ctx.facts
     # R09a
@@ -366,6 +409,7 @@ def run(ctx, rep):
                                  "serializer writes DHEADER: %s; deserializer consumes %d u32 header(s)" % (sh, dh))
     rep.floor("R09b", npairs, 10, "construct x version pairs")
     check_object_extent(fx, rep, "R09k", "R09l", "R09m")
+    check_lc5_choice(fx, rep, "R09n")
     for b in fx.bodies.values():
         if not b.is_fn_like() or "::tests::" in b.sname or not b.sum_calls:
             continue
